@@ -10,3 +10,5 @@ import AvoVerif.Props.C02
 #print axioms Avo.Determinism.mostRestricted_perm
 #print axioms Avo.Determinism.mapRanges_expected
 #print axioms Avo.Live.liveness_order_irrelevant
+#print axioms Avo.Determinism.allocLoop_perm
+#print axioms Avo.Alloc.foldl_perm
